@@ -68,7 +68,14 @@ def names(tier: str, rng: random.Random) -> tuple[list[str], dict]:
     for _ in range(3000 if tier == "quick" else 30000):
         n = rng.randrange(1, 14)
         pool.append("".join(rng.choice("abcXYZ019___") for _ in range(n)))
-    out += pool
+    dotted = []
+    segs = ["pkg", "sub_pkg", "_private", "mod_name", "a", "_", "__x", "x_", "my_package", "HTTP_server", "tests", "a1_b2"]
+    for _ in range(1500 if tier == "quick" else 15000):
+        k = rng.randrange(2, 5)
+        dotted.append(".".join(rng.choice(segs) if rng.random() < 0.6 else
+                               "".join(rng.choice("abXY01__") for _ in range(rng.randrange(1, 8))) for _ in range(k)))
+    info["dotted_paths"] = len(set(dotted))
+    out += pool + dotted
     return out, info
 
 
@@ -105,6 +112,14 @@ def run(ctx) -> None:
         fail = None
         if pf != n or pc != n:
             fail = f"flag off but name changed: {pf!r}/{pc!r}"
+        elif "." in n and all(IDENT.match(seg or "-") for seg in n.split(".")):
+            # package segments in lowerCamelCase: every segment of a dotted path is rendered on its own
+            wf = ".".join(spec_camel(seg, False) for seg in n.split("."))
+            wc = ".".join(spec_camel(seg, True) for seg in n.split("."))
+            if f != wf:
+                fail = f"the package path {n!r} is rendered {f!r}, its segments in lowerCamelCase are {wf!r}"
+            elif c != wc:
+                fail = f"the dotted name {n!r} is rendered {c!r} as a class path, its segments in UpperCamelCase are {wc!r}"
         elif "." not in n and IDENT.match(n or "-"):
             if f != spec_camel(n, False):
                 fail = f"lowerCamelCase of {n!r} is {f!r}, expected {spec_camel(n, False)!r}"
